@@ -200,10 +200,10 @@ Definition sym_kern : kern := {|
   (* Kronecker products: right when every factor's result is *)
   k_eig_kron := fun A vecs es => plainv (KEig vecs) A (all_b (fun e => sv_ok e && is_kind e (KEig vecs)) es) FEig;
   k_svd_kron := fun A us => plainv KSvd A (all_b (fun u => sv_ok u && is_kind u KSvd) us) FSvd;
-  k_chol_kron := fun A cs up =>
+  k_chol_kron := fun A cs up inst =>
     mkv8 (KFactor (if up then RRootT else RRoot)) A
          (all_b (fun c => sv_ok c && is_factor c (if up then RRootT else RRoot) && sv_tri c && Bool.eqb (sv_upper c) up && sv_tri_ok c) cs)
-         true up true (FKron (map sv_fam cs)) false;
+         true up true (FKron (map sv_fam cs)) inst;
   k_root_kron := fun A rs =>
     plainv (KRootOp RRoot) A (all_b (fun r => sv_ok r && is_rootop r RRoot && label_ok r && negb (sv_tri r && sv_upper r)) rs)
            (FKron (map sv_fam rs));
@@ -214,7 +214,11 @@ Definition sym_kern : kern := {|
            ((match iq with
              | Some x => sv_ok x && smat_eqb (sv_of x) A && (match sv_kind x with KIqld (Some _) false => true | _ => false end)
              | None => true end) &&
-            (match e with Some e' => sv_ok e' && smat_eqb (sv_of e') A && is_eig e' | None => true end)) FNone
+            (match e with Some e' => sv_ok e' && smat_eqb (sv_of e') A && is_eig e' | None => true end)) FNone;
+  (* delegating classes: right when the base operator's result is *)
+  k_deleg_lift := fun A x => mkv8 (KFactor RInv) A (sv_ok x && is_factor x RInv && label_ok x) false false true (sv_fam x) false;
+  k_iqld_deleg := fun A r => plainv (sv_kind r) A (sv_ok r && match sv_kind r with KIqld _ _ => true | _ => false end) FNone;
+  k_sample_deleg := fun A v => plainv (sv_kind v) A (sv_ok v && match sv_kind v with KSample _ => true | _ => false end) FNone
 |}.
 
 (* validity of an answer / a cache entry in the symbolic instance *)
